@@ -85,7 +85,7 @@ NMTOOLS_TESTING_DECLARE_CASE(index, conv_reshape_weight)
     }
     NMTOOLS_TESTING_DECLARE_EXPECT(case3)
     {
-        inline int result[5] = {2,1,1,3,3};
+        inline int result[5] = {1,2,1,3,3};
     }
 
     NMTOOLS_TESTING_DECLARE_ARGS(case4)
@@ -97,7 +97,7 @@ NMTOOLS_TESTING_DECLARE_CASE(index, conv_reshape_weight)
     }
     NMTOOLS_TESTING_DECLARE_EXPECT(case4)
     {
-        inline int result[5] = {4,1,3,3,3};
+        inline int result[5] = {1,4,3,3,3};
     }
 
     NMTOOLS_TESTING_DECLARE_ARGS(case5)
